@@ -822,13 +822,27 @@ func LoadedValue(v ssa.Value) ssa.Value {
 		if a == nil {
 			return v
 		}
-		st := StoresTo(a)
+		st := EffectiveStores(a)
 		if len(st) != 1 {
 			return v
 		}
 		v = st[0].Val
 	}
 	return v
+}
+
+// EffectiveStores: the stores to a, without those that write back what was
+// just loaded from it (`return stat, f` with named results re-assigns stat to
+// itself).
+func EffectiveStores(a *ssa.Alloc) []*ssa.Store {
+	var out []*ssa.Store
+	for _, s := range StoresTo(a) {
+		if u, ok := s.Val.(*ssa.UnOp); ok && u.Op == token.MUL && u.X == ssa.Value(a) {
+			continue
+		}
+		out = append(out, s)
+	}
+	return out
 }
 
 // ConstInt returns the int64 value of a constant operand.
